@@ -25,68 +25,7 @@ from . import model as M
 INF = float("inf")
 
 
-# --------------------------------------------------------------------------- scripted randomness
-class Script:
-    def __init__(self):
-        self.count = {}
-        self.log = []
-
-    def _u(self, kind, key):
-        n = self.count.get((kind, key), 0)
-        self.count[(kind, key)] = n + 1
-        h = hashlib.sha256(("%s|%s|%d" % (kind, key, n)).encode()).digest()
-        return (int.from_bytes(h[:6], "big") + 1) / float(2 ** 48 + 2)
-
-    def exp_scale(self, scale):
-        u = self._u("exp", "%.9g" % scale)
-        v = -math.log(u) * scale
-        self.log.append(("exp", scale, v))
-        return v
-
-    def pois(self, lam):
-        if lam < 0:
-            raise Raised("ValueError(lam < 0)")
-        if lam == 0:
-            self.log.append(("pois", lam, 0))
-            return 0
-        u = self._u("pois", "%.9g" % lam)
-        k, p = 0, math.exp(-lam)
-        c = p
-        while c < u and k < 10000:
-            k += 1
-            p = p * lam / k
-            c += p
-        self.log.append(("pois", lam, k))
-        return k
-
-
-class GlobalGen:
-    """numpy's global generator (np.random.<dist>) with scripted draws"""
-    _abs_native = True
-    label = "np.random"
-
-    def __init__(self, script):
-        self.script = script
-
-    def _many(self, fn, size):
-        if size is None:
-            return fn()
-        if isinstance(size, bool) or not isinstance(size, int):
-            if isinstance(size, float) and size == int(size):
-                size = int(size)
-            else:
-                raise Undecided("size=%r" % (size,))
-        return NumArr([fn() for _ in range(size)])
-
-    def exponential(self, scale=1.0, size=None):
-        if isinstance(scale, NumArr):
-            return NumArr([self.script.exp_scale(s) for s in scale])
-        return self._many(lambda: self.script.exp_scale(scale), size)
-
-    def poisson(self, lam=1.0, size=None):
-        if isinstance(lam, NumArr):
-            return NumArr([self.script.pois(l) for l in lam])
-        return self._many(lambda: self.script.pois(lam), size)
+from ..core.libmodel import Script, Gen, is_randomstate
 
 
 class F64(float):
@@ -265,11 +204,9 @@ class World:
 
     def __init__(self, repo, script, safety=None):
         self.repo, self.script = repo, script
-        self.gen = GlobalGen(script)
+        self.gen = Gen("global", script)
         s = dict(num_summaries())
         s.update({
-            "np.random.exponential": self.gen.exponential, "np.random.poisson": self.gen.poisson,
-            "numpy.random.exponential": self.gen.exponential, "numpy.random.poisson": self.gen.poisson,
             "copy.deepcopy": lambda v: v.copy() if hasattr(v, "copy") else v, "copy.copy": lambda v: v.copy() if hasattr(v, "copy") else v,
             "float": float, "int": int, "abs": abs, "math.floor": math.floor, "floor": math.floor,
             "csc.pdtr": poisson_cdf, "check_array_type": lambda v: v if isinstance(v, NumArr) else NumArr(list(v)),
@@ -279,9 +216,10 @@ class World:
             s["_cy_test_tau_leap_safety"] = lambda x, lm, r, tau, eps: (safety(tau), True)
         self.summaries = s
         self.consts = {"np.random": self.gen, "numpy.random": self.gen}
+        self.types = {"np.random.RandomState": is_randomstate, "numpy.random.RandomState": is_randomstate}
 
     def abs(self, me=None, module=None):
-        ab = Abs({}, {}, self.summaries, me, {}, budget=400000)
+        ab = Abs({}, self.types, self.summaries, me, {}, budget=400000)
         ab.consts = self.consts
         ab.module = module
         return ab
@@ -302,6 +240,7 @@ def run_jump(repo, m, finalT, exact, pre_tau, eps, safety, runs=2):
     """interpret SimulateOde._jump `runs` times in a row on one model object (one random stream)"""
     script = Script()
     w = World(repo, script, safety)
+    script.registry = w.gen.registry
     cls = M.sim_class(repo)
     fn = repo.resolve_method(cls, "_jump")
     if fn is None:
@@ -323,6 +262,10 @@ def run_jump(repo, m, finalT, exact, pre_tau, eps, safety, runs=2):
         if kind == "raise":
             break
     return fn, outs, me, script
+
+
+def script_gen_registry(fn, outs, me, script):
+    return getattr(script, "registry", [])
 
 
 def first_record_diff(got, want):
@@ -421,6 +364,10 @@ def check_walks(repo, res, rule="R-WALK", only_exact=None, models=None):
                     d = "the model's initial state was modified by the run: %s -> %s" % (_fmt(m.x0), _fmt(x0_now))
             if d is not None:
                 break
+        if d is None:
+            local = sorted({repr(k) for k, _ in script_gen_registry(fn, outs, me, script)} - {"'global'"})
+            if local:
+                d = "draws of a serial run (seed=None) come from %s instead of numpy's global generator: np.random.seed() does not control them" % ", ".join(local)
         from ..core import absint as _ai
         res.functions |= set(_ai.INLINED)
         res.check(d is None, rule, fn, tag,
